@@ -35,4 +35,16 @@ var props = []Prop{
 			{Name: "file", Engine: "outdir", Quick: 400, Thorough: 20000, Knobs: map[string]string{"mode": "file", "invalid": "some", "faults": "enum"}, Timeout: 60 * time.Second},
 		},
 	},
+	{
+		ID:    "C20",
+		Level: "fault_enumeration",
+		Rule: "Scenario = simulated directory layout (1-4 *_test.arrai files in nested directories, a directory named like a test file, hidden directories holding failing/broken tests that must be skipped, non-test decoys, files importing siblings; target given absolute, relative, as a sub-directory or as a single file) x generated result trees (tuples/arrays/dicts nested <=4 built by several routes incl. +>, ++ and offset arrays; leaves true/false/other by several spellings; optional syntax or evaluation errors). test.RunTests runs against the simulated disk; its error and parsed report are compared with the leaf census the generator wrote down (pass iff all leaves true; one report line per leaf; summary counts add up). Then the run is repeated once per disk operation of the fault-free run with that operation failing (stat/open/read-with-prefix/readdir/close): a fault may turn a pass into a failure, never a failure into a pass. Half of the scenarios are all-true so both directions of the iff are exercised. Non-trivial = >=2 leaves; distinct = distinct (verdict, file count, multiset of leaf paths and outcomes).",
+		Components: map[string][]string{"real": {"pkg/test (RunTests, walk, RunExpr, ForeachLeaf, calcStats, Report)", "syntax (compiler, evaluator, local imports)", "rel"}, "stub": {"disk: aaverif/simfs", "report writer: bytes.Buffer"}},
+		Assume:     []string{"the census is written down by the generator, not computed by evaluating anything", "dictionaries with several values under one key, and array index naming across offsets/holes, are not specified and not compared", "wall-time fields of the report are ignored"},
+		Batches: []Batch{
+			{Name: "layouts", Engine: "atest", Quick: 3000, Thorough: 300000, Timeout: 60 * time.Second},
+			{Name: "layouts-sparse", Engine: "atest", Quick: 600, Thorough: 50000, Knobs: map[string]string{"sparse": "on"}, Timeout: 60 * time.Second},
+			{Name: "faults", Engine: "atest", Quick: 300, Thorough: 20000, Knobs: map[string]string{"faults": "enum"}, Timeout: 120 * time.Second},
+		},
+	},
 }
